@@ -176,20 +176,82 @@ def gen_case(rng):
             tm['nm'] = rng.choice([0, 1, 24])
     # the TOUGHREACT flavour is only recognisable in a file through the permeability columns
     react = react and any(b['permeability'] is not None for b in blocks)
-    return {'simulator': 'TOUGHREACT' if react else 'TOUGH2', 'blocks': blocks, 'timing': tm, 'reset': reset, 'num_variables': nv}
+    return {'simulator': 'TOUGHREACT' if react else 'TOUGH2', 'blocks': blocks, 'timing': tm, 'reset': reset, 'num_variables': nv,
+            'route': rng.choice(ROUTES)}
+
+
+ROUTES = ['add', 'setitem', 'setters', 'insert+delete']
 
 
 def build(case):
+    """The set of initial conditions of the descriptor, assembled through one of the public routes (case['route']):
+    add_incon() block by block; inc[name] = values, the other attributes set on the stored block afterwards; everything
+    through the whole-set properties (variable / porosity / permeability arrays or uniform values) over placeholder
+    blocks; blocks added in another order with a stray block, put right with insert_incon() / delete_incon()."""
     t2i = R.t2incons
     import numpy as np
     inc = t2i.t2incon()
     inc.simulator = case['simulator']
-    for b in case['blocks']:
+    route = case.get('route', 'add')
+    blocks = case['blocks']
+
+    def blockincon(b):
         perm = None if b['permeability'] is None else np.array(b['permeability'])
-        inc.add_incon(t2i.t2blockincon(list(b['variable']), b['name'], porosity=b['porosity'], permeability=perm,
-                                       nseq=b['nseq'], nadd=b['nadd']))
+        return t2i.t2blockincon(list(b['variable']), b['name'], porosity=b['porosity'], permeability=perm, nseq=b['nseq'], nadd=b['nadd'])
+    if route == 'setitem':
+        for b in blocks:
+            inc[b['name']] = list(b['variable'])
+            bi = inc[b['name']]
+            bi.porosity, bi.nseq, bi.nadd = b['porosity'], b['nseq'], b['nadd']
+            bi.permeability = None if b['permeability'] is None else np.array(b['permeability'])
+    elif route == 'setters' and blocks:
+        nv = len(blocks[0]['variable'])
+        for b in blocks:
+            inc.add_incon(t2i.t2blockincon([0.0] * nv, b['name'], nseq=b['nseq'], nadd=b['nadd']))
+        inc.variable = np.array([b['variable'] for b in blocks])
+        pors = [b['porosity'] for b in blocks]
+        if all(p is not None for p in pors):
+            inc.porosity = np.array(pors)
+        elif all(p is None for p in pors):
+            inc.porosity = 0.5
+            inc.porosity = None
+        else:
+            for b in blocks:
+                inc[b['name']].porosity = b['porosity']
+        perms = [b['permeability'] for b in blocks]
+        if all(p is not None for p in perms):
+            if all(p == perms[0] for p in perms) and len(blocks) != 3:
+                inc.permeability = np.array(perms[0])              # one triple for every block
+            else:
+                inc.permeability = np.array(perms)
+        elif all(p is None for p in perms):
+            inc.permeability = 1.0e-15
+            inc.permeability = None
+        else:
+            for b in blocks:
+                inc[b['name']].permeability = None if b['permeability'] is None else np.array(b['permeability'])
+    elif route == 'insert+delete' and len(blocks) >= 2:
+        # all but the second block, a stray block in front; then the second block is inserted where it belongs and the
+        # stray one deleted
+        inc.add_incon(t2i.t2blockincon([1.0], 'zzz99'))
+        for i, b in enumerate(blocks):
+            if i != 1:
+                inc.add_incon(blockincon(b))
+        inc.insert_incon(2, blockincon(blocks[1]))
+        inc.delete_incon('zzz99')
+    else:
+        for b in blocks:
+            inc.add_incon(blockincon(b))
     inc.timing = None if case['timing'] is None else dict(case['timing'])
     return inc
+
+
+def descriptor_model(case):
+    return {'simulator': case['simulator'], 'timing': None if case['timing'] is None else dict(case['timing']),
+            'blocks': [{'name': b['name'], 'variable': [None if v is None else float(v) for v in b['variable']],
+                        'porosity': None if b['porosity'] is None else float(b['porosity']),
+                        'permeability': None if b['permeability'] is None else [float(x) for x in b['permeability']],
+                        'nseq': b['nseq'], 'nadd': b['nadd']} for b in case['blocks']]}
 
 
 def needs_unchecked(case):
@@ -226,6 +288,15 @@ def run_roundtrip(ctx, case, tag='gen'):
     with ctx.guard(case, where='build+write') as g:
         inc = build(case)
         m0 = model_of(inc)
+        ctx.see('build_route', case.get('route', 'add'))
+        ctx.count('objects_compared_with_descriptor')
+        dm = descriptor_model(case)
+        if m0 != dm or [b.block for b in inc] != [b['name'] for b in case['blocks']] or inc.num_blocks != len(case['blocks']) or \
+                any(inc[b['name']] is not inc[i] for i, b in enumerate(case['blocks'])):
+            d = diff_models(dm, m0)
+            ctx.violation('object-differs-from-what-was-put-in:%s' % case.get('route', 'add'),
+                          'initial conditions assembled through %r: %s' % (case.get('route', 'add'), d[0][1] if d else 'lookup by name and by index disagree'), case)
+            return
         inc.write(fn1, reset=case['reset'])
         m_after = model_of(inc)
     if g.raised is not None:
